@@ -28,6 +28,12 @@ CHECKS = {
    text="Both wall-clock edges of every transition of every zone are probed to the nanosecond, plus the extreme civil datetimes; classification, all four strategies and every civil->zoned entry point are compared with the instant-direction oracle; out-of-range results must be errors, not panics.",
    note="Trusted: reftz.rs instant direction (C03). Civil times displayed by >= 3 instants are skipped and counted.",
    design="DESIGN.md section 3 C04"),
+ "C08": dict(
+   technique="proptest generation of (civil value, span/duration) pairs up to the unit limits against a reference interpreter on day numbers and i128 nanoseconds (differential oracle)",
+   category="exploration",
+   text="Limit-biased spans (every unit up to its documented limit, both signs, all unit mixes) and absolute durations (up to i64 seconds) are added to / subtracted from dates, datetimes and clock times through checked, saturating, wrapping and operator forms and series; each result (or error) is compared with exact arithmetic on day counts and nanoseconds-of-day.",
+   note="Trusted: refarith.rs + refcal.rs. Sampled, not exhaustive.",
+   design="DESIGN.md section 3 C08"),
  "C14": dict(
    technique="model-based differential testing of the following/preceding iterators against the reference transition list (explicit + rule-generated), bounded pulls and to-exhaustion runs under a step cap; structured starts around every hand-over + proptest",
    category="exploration",
